@@ -29,6 +29,15 @@ Theorem C08_running_has_file : forall V C s j,
 Proof. exact running_has_file. Qed.
 Print Assumptions C08_running_has_file.
 
+(* no step of any process (release, watcher thread, start-up sweep, event handler ...) deletes or
+   alters the token file of a job that is and stays running                                    *)
+Theorem C08_running_file_stable : forall V C s l s' r j,
+  v_fire V = true -> reachable V C s -> step V C s l = Some (s', r) ->
+  j_ph (s_jobs s j) = Running -> j_ph (s_jobs s' j) = Running ->
+  s_disk s j = Written (c_cnt C j) /\ s_disk s' j = Written (c_cnt C j).
+Proof. exact running_file_stable. Qed.
+Print Assumptions C08_running_file_stable.
+
 (* hence the jobs whose process is alive together hold at most the total *)
 Theorem C08_running_sum : forall V C s,
   (forall j, 0 <= c_cnt C j) -> 0 <= c_total C -> v_fire V = true -> reachable V C s ->
